@@ -67,17 +67,19 @@ def limitsOp : List String → Option String
     else if !one gap then pure "s1=200 s2=408 handler=1"
     else pure "s1=200 s2=200 handler=2"
   | ["tom", hS, kindsS] => do
-    -- several connections on one worker: each has its own clock, a scan of the idle peers decides for each one separately
+    -- several connections on one worker: at the tick after the deadline one scan of the idle peers judges each on its own
+    -- (Timeouts.scan): a busy keep-alive connection restarted its clock at most hdr/4 ms ago, a silent or partial one never did
     let hdr ← hS.toNat?
     let c : Timeouts.TCfg := { hdr := hdr, body := hdr }
-    let one (k : String) : Option String :=
-      if k == "K" then
-        -- a complete request every hdr/4 ms after the clock was restarted by the previous one
-        (match Timeouts.verdict c { th := some (hdr / 4), tb := some (hdr / 4) } 64 with | .timedOut _ => some "K:bad" | _ => some "K:ok")
-      else if k == "S" || k == "P" then
-        (match Timeouts.verdict c { th := none, tb := none } 64 with | .timedOut _ => some (k ++ ":408!") | _ => some (k ++ ":0"))
-      else none
-    let rs ← (kindsS.splitOn ",").mapM one
+    let kinds := kindsS.splitOn ","
+    if kinds.any (fun k => !(k == "K" || k == "S" || k == "P")) then none
+    let tick := (hdr / c.period + 1) * c.period
+    let peers : List Timeouts.Peer := (List.range kinds.length).map fun i =>
+      if kinds.getD i "" == "K" then { id := i, phase := .head, elapsed := hdr / 4 } else { id := i, phase := .head, elapsed := tick }
+    let dropped := (Timeouts.scan c peers).map (·.id)
+    let rs := (List.range kinds.length).map fun i =>
+      let k := kinds.getD i ""
+      if k == "K" then (if dropped.contains i then "K:bad" else "K:ok") else (if dropped.contains i then k ++ ":408!" else k ++ ":0")
     pure s!"conns={",".intercalate rs}"
   | _ => none
 
